@@ -70,6 +70,22 @@ CHECKS["C05"] = dict(
          "against both extracted engines.",
     design="4/C05", technique="Coq refinement proof (hash-chain selection = reference over the entry list) over comparators regenerated from the C source + differential correspondence with _lou_translate")
 
+CHECKS["C07"] = dict(
+    text="Machine-checked proof (Coq). Layer A, valid for EVERY table: the finishing code (raw position map -> inputPos/outputPos/"
+         "cursor) produces valid indices, a non-decreasing scanned map and mutually consistent maps for ANY integer position map whose "
+         "first entry is >= 0 (no bound or monotonicity assumed), writes nothing beyond the consumed range, is the identity on the "
+         "identity map, and the hypothesis cannot be dropped (refutation witness). Layer B: the F engine's map is non-negative and "
+         "non-decreasing. Tied to the code by pushing the hooked raw posMapping of every real call through the extracted model "
+         "(must reproduce the returned arrays exactly) and by evaluating the clauses on the returned arrays.",
+    design="4/C07", technique="Coq proof about the finishing code for arbitrary position maps + hook-based correspondence on every real call")
+CHECKS["C09"] = dict(
+    text="Machine-checked proof (Coq) over the re-encoding expressions regenerated from _lou_translate/_lou_backTranslate/"
+         "lou_dotsToChar/lou_charToDots: ucBrl = low eight dots in U+2800, dotsIO = raw cell, typeform '8' iff dot 7 or 8 (16-bit "
+         "sweeps lifted by lemma), Unicode braille accepted by lou_dotsToChar and by dotsIO back-translation, and the inventory of "
+         "`mode & mask' tests shows dotsIO/ucBrl are tested only in finishing/decoding functions. Tied to the code by running each "
+         "input under the three encodings and back-translating characters vs their dots images.",
+    design="4/C09", technique="Coq proof over expressions regenerated from the C source (finite sweeps lifted) + differential runs under the three encodings")
+
 PENDING = {}
 
 
